@@ -140,4 +140,41 @@ theorem sorted_perm_unique (a b : List Edge) (hp : a.Perm b) (ha : SortedT a) (h
       have hp' : xs.Perm ys := List.Perm.cons_inv hp
       rw [ih ys hp' hxa.2 hyb.2 hxd.2]
 
+/-! ### rounding never moves a breakpoint -/
+
+/-- The lengths of the finished (non-open) segments of a list, in order: its breakpoints, as differences. -/
+def closedLens (l : List Seg) : List Int := l.filterMap (·.len)
+
+/-- The float loop and the exact loop of `Sum` close the same segments with the same lengths, whatever the
+magnitudes they carry and whatever the final drop rule decides: the lengths are computed from edge times only. -/
+theorem emitF_closedLens (drop drop' : Int → Bool) (es : List Edge) (m m' lt : Int) :
+    closedLens (emitF drop m lt es) = closedLens (emit drop' m' lt es) := by
+  induction es generalizing m m' lt with
+  | nil =>
+    simp only [emitF, emit, closedLens]
+    split <;> split <;> simp
+  | cons e es ih =>
+    simp only [emitF, emit]
+    by_cases h : e.time - lt = 0
+    · simp only [h, if_true]
+      exact ih _ _ _
+    · simp only [h, if_false, closedLens, List.filterMap_cons]
+      have := ih (addF m e.delta) (m' + e.delta) e.time
+      simp only [closedLens] at this
+      rw [this]
+
+theorem sumEdgesF_closedLens (drop drop' : Int → Bool) (es : List Edge) :
+    closedLens (sumEdgesF drop es) = closedLens (sumEdges drop' es) := by
+  cases es with
+  | nil => rfl
+  | cons e es => exact emitF_closedLens drop drop' (e :: es) 0 0 0
+
+theorem lenSum_eq_closedLens (l : List Seg) : lenSum l = (closedLens l).sum := by
+  induction l with
+  | nil => rfl
+  | cons s rest ih =>
+    cases hs : s.len with
+    | none => simp [lenSum, closedLens, hs, List.filterMap_cons] at ih ⊢; exact ih
+    | some x => simp [lenSum, closedLens, hs, List.filterMap_cons] at ih ⊢; rw [ih]
+
 end ScVerif.C18
